@@ -160,6 +160,131 @@ spec('transmute-of-local', ['C19'], 'UNSAFE-SITES', 'UNSAFE-SITES:', [
 spec('substring-raw-indices', ['C19'], 'UNSAFE-SITES', 'UNSAFE-SITES:', [
     (WI, 'self.line.byte_slice_unchecked(start..end)', 'self.line.byte_slice_unchecked(start_index..end_index)')])
 
+spec('text-original-lines-none', ['C01'], 'TEXT', 'TEXT:<original_source::OriginalSource', [
+    (OS_, '''          (!options.final_source).then_some(l.into_rope()),''', '''          None,''')])
+spec('text-concat-close-always', ['C01', 'C08'], 'TEXT', 'TEXT:<concat_source::ConcatSource', [
+    (CC, '|| (options.final_source && last_mapping_line == generated_line);', '|| (last_mapping_line == generated_line);')])
+spec('text-lines-full-none', ['C01', 'C08'], 'TEXT', 'TEXT:helpers::stream_chunks_of_source_map_lines_full', [
+    (HP, '''      mapping.generated_column = 0;
+      original.name_index = None;
+      on_chunk(Some(chunk.clone().into_rope()), mapping);''', '''      mapping.generated_column = 0;
+      original.name_index = None;
+      on_chunk(None, mapping);''')])
+spec('opts-public-final', ['C01'], 'OPTS-LIT', 'OPTS-LIT:', [
+    (SRC, '''impl MapOptions {
+  /// Create [MapOptions] with columns.''', '''impl MapOptions {
+  /// Create final [MapOptions].
+  pub fn new_final(columns: bool) -> Self {
+    Self {
+      columns,
+      final_source: true,
+    }
+  }
+
+  /// Create [MapOptions] with columns.''')])
+spec('replace-inner-options-inherit', ['C17'], 'UNWRAP-TEXT', 'UNWRAP-TEXT:', [
+    (RS, '''      &MapOptions {
+        columns: options.columns,
+        final_source: false,
+      },
+      &mut |chunk, mut mapping| {''', '''      &MapOptions {
+        columns: options.columns,
+        final_source: options.columns,
+      },
+      &mut |chunk, mut mapping| {''')])
+spec('ident-column-zero', ['C04'], 'IDENT', 'IDENT:', [
+    (OS_, '''                original_line: line,
+                original_column: column,''', '''                original_line: line,
+                original_column: 0,''')])
+spec('ident-announce-value-as-name', ['C04'], 'IDENT', 'IDENT:', [
+    (OS_, 'on_source(0, Cow::Borrowed(&self.name), Some(Rope::from(&self.value)));', 'on_source(0, Cow::Borrowed(&self.value), Some(Rope::from(&self.value)));')])
+spec('idx-concat-local-source', ['C06', 'C11'], 'IDX', 'IDX:<concat_source::ConcatSource as helpers::StreamChunks>::stream_chunks:source', [
+    (CC, '''            on_chunk(
+              chunk,
+              Mapping {
+                generated_line: line,
+                generated_column: column,
+                original: Some(OriginalLocation {
+                  source_index: result_source_index,''', '''            on_chunk(
+              chunk,
+              Mapping {
+                generated_line: line,
+                generated_column: column,
+                original: Some(OriginalLocation {
+                  source_index: original.source_index,''')])
+spec('idx-combined-passthrough-local', ['C09', 'C11'], 'IDX', 'IDX:helpers::stream_chunks_of_combined_source_map', [
+    (HP, '''              name_index: (final_name_index >= 0)
+                .then_some(final_name_index as u32),
+            }),
+          },
+        );
+      }
+    },''', '''              name_index: (final_name_index >= 0)
+                .then_some(name_index as u32),
+            }),
+          },
+        );
+      }
+    },''')])
+spec('idx-combined-inner-local', ['C09'], 'IDX', 'IDX:helpers::stream_chunks_of_combined_source_map:source', [
+    (HP, '''                original: (source_index >= 0).then_some(OriginalLocation {
+                  source_index: source_index as u32,''', '''                original: (source_index >= 0).then_some(OriginalLocation {
+                  source_index: inner_source_index,''')])
+spec('advance-unconditional', ['C06'], 'ADVANCE', 'ADVANCE:', [
+    (RS, '''          if let Some(original) = mapping.original.as_mut().filter(|original| {
+            check_original_content(
+              original.source_index,
+              original.original_line,
+              original.original_column,
+              chunk.byte_slice(0..chunk_pos as usize),
+            )
+          }) {
+            original.original_column += chunk_pos;
+          }''', '''          if let Some(original) = mapping.original.as_mut() {
+            original.original_column += chunk_pos;
+          }''')])
+spec('pair-combined-name-not-announced', ['C09', 'C11'], 'PAIR', 'PAIR:helpers::stream_chunks_of_combined_source_map', [
+    (HP, '''            name_mapping.borrow_mut().insert(name.clone(), len);
+            on_name(len, name.clone());''', '''            name_mapping.borrow_mut().insert(name.clone(), len);''')])
+spec('pair-concat-not-dense', ['C11'], 'PAIR', 'PAIR:<concat_source::ConcatSource', [
+    (CC, 'source_mapping.insert(source.clone(), len);', 'source_mapping.insert(source.clone(), len + 1);')])
+spec('root-lines-final-raw-name', ['C08'], 'ROOT', 'ROOT:helpers::stream_chunks_of_source_map_lines_final', [
+    (HP, '''      get_source(source_map, source),
+      source_map.get_source_content(i).map(Rope::from),
+    )
+  }
+  let final_line = if result.generated_column == 0 {''', '''      Cow::Borrowed(source),
+      source_map.get_source_content(i).map(Rope::from),
+    )
+  }
+  let final_line = if result.generated_column == 0 {''')])
+spec('eager-lines-full-keeps-names', ['C08', 'C11'], 'EAGER', 'EAGER:helpers::stream_chunks_of_source_map_lines_full', [
+    (HP, '''      mapping.generated_column = 0;
+      original.name_index = None;
+      on_chunk(Some(chunk.clone().into_rope()), mapping);''', '''      mapping.generated_column = 0;
+      on_chunk(Some(chunk.clone().into_rope()), mapping);''')])
+spec('eager-announce-after-deliver', ['C08', 'C11'], 'EAGER', 'EAGER:helpers::stream_chunks_of_source_map_final', [
+    (HP, '''  for (i, name) in source_map.names().iter().enumerate() {
+    on_name(i as u32, Cow::Borrowed(name));
+  }
+  let mut mapping_active_line = 0;''', '''  let mut mapping_active_line = 0;'''),
+    (HP, '''  for mapping in source_map.decoded_mappings() {
+    on_mapping(mapping);
+  }
+  result
+}
+
+fn stream_chunks_of_source_map_full''', '''  for mapping in source_map.decoded_mappings() {
+    on_mapping(mapping);
+  }
+  for (i, name) in source_map.names().iter().enumerate() {
+    on_name(i as u32, Cow::Borrowed(name));
+  }
+  result
+}
+
+fn stream_chunks_of_source_map_full''')])
+
 
 def main():
     os.makedirs(os.path.join(V, 'canaries'), exist_ok=True)
@@ -171,13 +296,18 @@ def main():
     bad = 0
     for s in SPECS:
         chunks = []
+        state = {}
         for (file, old, new) in s['edits']:
-            src = open(os.path.join(REPO, file)).read()
-            if src.count(old) != 1:
-                print('!! %s: anchor text occurs %d times in %s' % (s['name'], src.count(old), file))
+            cur = state.get(file)
+            if cur is None:
+                cur = open(os.path.join(REPO, file)).read()
+            if cur.count(old) != 1:
+                print('!! %s: anchor text occurs %d times in %s' % (s['name'], cur.count(old), file))
                 bad += 1
                 continue
-            dst = src.replace(old, new)
+            state[file] = cur.replace(old, new)
+        for file, dst in state.items():
+            src = open(os.path.join(REPO, file)).read()
             d = difflib.unified_diff(src.splitlines(True), dst.splitlines(True), 'a/' + file, 'b/' + file, n=3)
             chunks.append(''.join(d))
         fn = s['name'] + '.diff'
